@@ -52,6 +52,7 @@ func (c *Ctx) detachedNotifyCtx(f *Func, ctxArg ast.Expr, ctxParam types.Object)
 }
 
 func rulesC04(c *Ctx) {
+	c.Import("R-C04-10", "a cancelled write is told from a broken writer by errors.Is against the sentinel as target (ErrRejected, context errors)", "C02", "R-C02-13", nil)
 	retireObj := c.FnObj(pJ, "Connection", "Retire")
 	notifyObj := c.FnObj(pJ, "Connection", "Notify")
 	callObj := c.FnObj(pJ, "Connection", "Call")
